@@ -323,3 +323,71 @@ def undeclared_uses(fn):
 
     visit(fn.body, set(params))
     return sorted(set(bad))
+
+
+def prologue(fn, member):
+    """The interface between the run-time structs and the kernel's variables (all inputs of this kernel):
+    every <x>_dim is bound once to T->dimensions[d] for a tensor T of the problem that has index x at position d;
+    every compressed level l of every tensor is unpacked as T_l_pos = T->indices[l][0], T_l_crd = T->indices[l][1]
+    (and only those), T_vals = T->vals; the parameters are the tensors of the problem in the order of its formats."""
+    from tensora.format import Mode
+
+    bad = []
+    a = member.assignment
+    refs = {a.target.name: [a.target]}
+    for n, ts in a.expression.variables().items():
+        refs.setdefault(n, []).extend(ts)
+    params = [p.name.name for p in fn.parameters]
+    if params != list(member.formats.keys()):
+        bad.append(f"parameters {params} are not the tensors of the problem in order {list(member.formats.keys())}")
+    dims, pos, crd, vals = {}, {}, {}, {}
+    body = fn.body.statements if isinstance(fn.body, ir.Block) else [fn.body]
+    top = []
+    for s_ in body[:2]:  # the two prologue blocks
+        top += [x for x in walk(s_) if isinstance(x, ir.DeclarationAssignment)]
+    for st in top:
+        name, v = st.target.name.name, st.value
+        if name.endswith("_dim"):
+            ok = (isinstance(v, ir.ArrayIndex) and isinstance(v.target, ir.AttributeAccess) and v.target.attribute == "dimensions"
+                  and isinstance(v.target.target, ir.Variable) and isinstance(v.index, ir.IntegerLiteral))
+            if not ok:
+                bad.append(f"{name} is not bound to a tensor dimension")
+                continue
+            if name in dims:
+                bad.append(f"{name} bound twice")
+            dims[name] = (v.target.target.name, v.index.value)
+        elif name.endswith("_pos") or name.endswith("_crd"):
+            ok = (isinstance(v, ir.ArrayIndex) and isinstance(v.index, ir.IntegerLiteral) and isinstance(v.target, ir.ArrayIndex) and isinstance(v.target.index, ir.IntegerLiteral)
+                  and isinstance(v.target.target, ir.AttributeAccess) and v.target.target.attribute == "indices" and isinstance(v.target.target.target, ir.Variable))
+            if not ok:
+                bad.append(f"{name} is not unpacked from indices[l][k]")
+                continue
+            (pos if name.endswith("_pos") else crd)[name] = (v.target.target.target.name, v.target.index.value, v.index.value)
+        elif name.endswith("_vals"):
+            ok = isinstance(v, ir.AttributeAccess) and v.attribute == "vals" and isinstance(v.target, ir.Variable)
+            if not ok:
+                bad.append(f"{name} is not unpacked from ->vals")
+                continue
+            vals[name] = v.target.name
+    index_names = set(a.index_participants()) | set(a.target.indexes)
+    for x in index_names:
+        got = dims.get(f"{x}_dim")
+        if got is None:
+            bad.append(f"{x}_dim is never bound")
+            continue
+        t, d = got
+        if not any(0 <= d < len(r.indexes) and r.indexes[d] == x for r in refs.get(t, [])):
+            bad.append(f"{x}_dim = {t}->dimensions[{d}] but no reference of {t} has index {x} at position {d}")
+    for n in set(dims) - {f"{x}_dim" for x in index_names}:
+        bad.append(f"{n} bound for an index the assignment does not have")
+    for t, fmt in member.formats.items():
+        for l, m in enumerate(fmt.modes):
+            for table, k, suffix in ((pos, 0, "pos"), (crd, 1, "crd")):
+                got = table.get(f"{t}_{l}_{suffix}")
+                if m == Mode.compressed and got != (t, l, k):
+                    bad.append(f"{t}_{l}_{suffix} should be {t}->indices[{l}][{k}], is {got}")
+                if m == Mode.dense and got is not None:
+                    bad.append(f"{t}_{l}_{suffix} unpacked for a dense level")
+        if vals.get(f"{t}_vals") != t:
+            bad.append(f"{t}_vals should be {t}->vals, is {vals.get(f'{t}_vals')}")
+    return bad
